@@ -94,7 +94,9 @@ def run(ctx):
     cws = corpus_inputs(ctx)
     cres = []
     if cws:
-        cres = L.evaluate(bindir, exe, cws, timeout=600)
+        # the model's boundary test is linear in the text per range: for the (ASCII) corpus only the three smallest roots get the texts
+        cws.sort(key=lambda w: sum(len(t) for _p, t in w['files']))
+        cres = L.evaluate(bindir, exe, cws[:3], timeout=600) + L.evaluate(bindir, exe, cws[3:], timeout=600, with_text=False)
         os.environ.pop("INCLUDE_DIR", None)
     found = False
     n_ranges = skipped = n_nonascii_ranges = 0
